@@ -213,3 +213,21 @@ func TestEvalUnaryNode_EvalFloat64_FailedToEvaluateNode(t *testing.T) {
 		t.Errorf("Got unexpected error:\ngot: %v\nexpected: %v\n", err, expectedError)
 	}
 }
+
+func TestEvalUnaryNode_EvalBool_MinusIsNotNot(t *testing.T) {
+	evaluator, err := stateful.NewEvalUnaryNode(&ast.UnaryNode{
+		Operator: ast.TokenMinus,
+		Node: &ast.ReferenceNode{
+			Reference: "value",
+		},
+	})
+	if err != nil {
+		t.Fatalf("Failed to compile unary node: %v", err)
+	}
+
+	scope := stateful.NewScope()
+	scope.Set("value", true)
+	if result, err := evaluator.EvalBool(scope, stateful.CreateExecutionState()); err == nil {
+		t.Errorf("Expected an error for the negation of a boolean, but got nil error and result: %v", result)
+	}
+}
